@@ -276,7 +276,9 @@ func (b *BlockList) readBlocklists() error {
 				return fmt.Errorf("error opening file: %w", err)
 			}
 
-			if err = b.parseHostFile(file); err != nil {
+			// <dir>/local is this instance's own persisted list: load it
+			// entry for entry. Downloaded lists keep the coverage dedup.
+			if err = b.parseHostFile(file, f.Name() == "local"); err != nil {
 				_ = file.Close()
 				return fmt.Errorf("error parsing hostfile: %w", err)
 			}
@@ -300,7 +302,7 @@ func (b *BlockList) readBlocklists() error {
 	return nil
 }
 
-func (b *BlockList) parseHostFile(file *os.File) error {
+func (b *BlockList) parseHostFile(file *os.File, verbatim bool) error {
 	scanner := bufio.NewScanner(file)
 	for scanner.Scan() {
 		line := scanner.Text()
@@ -336,7 +338,14 @@ func (b *BlockList) parseHostFile(file *os.File) error {
 				break
 			}
 			canonical := dns.CanonicalName(n)
-			if !b.Exists(canonical) {
+			// Skipping a name an earlier entry already covers keeps the
+			// huge downloaded lists compact. For the persisted local list
+			// it would make the reloaded list differ from the one that was
+			// written: "*.example.com." or "sub.example.com." after
+			// "example.com." would be dropped, and a later removal of the
+			// parent would then unblock, after a restart only, what the
+			// running instance still blocks.
+			if verbatim || !b.Exists(canonical) {
 				b.set(canonical)
 			}
 		}
